@@ -74,6 +74,7 @@ struct vec_basic {
   void insert(unsigned pos, const RCPBasic &e) { __CPROVER_assert(pos <= n, "vector insert position in range"); __CPROVER_assert(n < CAP, "stub capacity (vec_basic)"); if (pos <= n && n < CAP) { vb_shift_up(d, n, pos); d[pos].b.v = e.b.v; d[pos].nn = e.nn; n = n + 1; } }
   void erase(unsigned pos) { __CPROVER_assert(pos < n, "vector erase position in range"); if (pos < n) { vb_shift_down(d, n, pos); n = n - 1; } }
   void resize(unsigned k) { __CPROVER_assert(k <= CAP, "stub capacity (vec_basic)"); if (k > n) vb_fill(d, n, k, 0, false); n = k; }
+  void swap(vec_basic &o) { vec_basic t = o; o = *this; *this = t; }
   bool empty() const { return n == 0; }
   RCPBasic &front() { __CPROVER_assert(n > 0, "front() on a non-empty vector"); return d[0]; }
   RCPBasic &back() { __CPROVER_assert(n > 0, "back() on a non-empty vector"); return d[n > 0 && n <= CAP ? n - 1 : 0]; }
